@@ -1,13 +1,93 @@
 /-
-  Driver.OpsC17 — protocol operations for property C17 (filled in by the C17 work package).
-  Contract: `handleC17 op` returns the parser for operation `op` or `none` if `op` is not one of
-  this property's operations.
+  Driver.OpsC17 — protocol operations for property C17.
+
+  c17.cmp <disable 0|1> <rel> <abs> <frel> <fabs> <source fields> <reference fields>
+      rel/abs   : mesh tolerances (units) handed to mesh_equal's FuzzyEquality (python floats)
+      frel/fabs : tolerances of the field predicate DefaultEquality(rel_tol, abs_tol): `dflt` | `num u`
+      runs `MeshFieldsComparator(source, reference, disable_mesh_reordering=True,
+            disable_space_dimension_matching=disable)()`  (no reordering rungs: `rest = false`)
+    → hyp=<0|1> model=<T|F|E> dom0=<first domain check> rung=<extension rung taken>
+        spec=<T|F|-> (T/F when the reference is the zero-padded copy of the source or vice versa, or dims equal
+                       and the data sets identical; - otherwise)
+  c17.zero <z> <rel> <abs>   → model=<fuzzyEq1 f64 0 z rel abs (weak scalars)> exact=<exact formula>
 -/
-import Driver.Proto
+import Driver.ProtoMesh
+import FcModel.Extend
+import FcModel.Spec.C17
 namespace Fc.Drv
+open Fc
+
+/-- cell stages of `mesh_equal` for two meshes with the same set of cell-type names:
+    equal cell counts and equal sorted corner rows per type (stand-in for property C03's model) -/
+def cellsEqSimple (a b : Mesh) : Bool :=
+  (a.cells.all fun blk =>
+    match b.cells.find? (·.1 == blk.1) with
+    | some blk' => blk.2.length == blk'.2.length &&
+        blk.2.map sortCellsKeyD == blk'.2.map sortCellsKeyD
+    | none => false) &&
+  (b.cells.all fun blk => (a.cells.find? (·.1 == blk.1)).isSome)
+where sortCellsKeyD (row : List Nat) : List Nat := row.mergeSort (fun x y => decide (x ≤ y))
+
+def fieldDTypeOk (a : NdArr) : Bool :=
+  match a.dtype with
+  | .flt F => F == f64
+  | .int _ _ => true
+  | .str => false
+
+def hypC17 (s r : MeshFields) : Bool :=
+  s.wf && r.wf &&
+  decide (s.mesh.cellTypes.Nodup) && decide (r.mesh.cellTypes.Nodup) &&
+  s.mesh.cellTypes.all (r.mesh.cellTypes.contains ·) && r.mesh.cellTypes.all (s.mesh.cellTypes.contains ·) &&
+  decide ((s.namedFields.map (·.1)).Nodup) && decide ((r.namedFields.map (·.1)).Nodup) &&
+  s.namedFields.all (fieldDTypeOk ·.2) && r.namedFields.all (fieldDTypeOk ·.2) &&
+  (findMatches s.namedFields r.namedFields).all (fun p => p.1.dtype == p.2.dtype)
+
+def showOptBool : Option Bool → String
+  | some true => "T"
+  | some false => "F"
+  | none => "E"
+
+def pFieldTol : P Tol := do
+  let t ← tok
+  match t with
+  | "dflt" => pure .dflt
+  | "num" => do let u ← pNat; pure (.num u)
+  | _ => failure
+
+def opCmp : P String := do
+  let disable ← pBool
+  let rel ← pNat
+  let abs ← pNat
+  let frel ← pFieldTol
+  let fabs ← pFieldTol
+  let s ← pMeshFields
+  let r ← pMeshFields
+  let run := runComparison (domainEqual rel abs cellsEqSimple) (defaultCheck frel fabs)
+  let rest : MeshFields → MeshFields → Bool := fun _ _ => false
+  let m := compareDimMatch run rest disable s r
+  let dom0 := (run s r).1
+  let rung := !dom0 && s.mesh.dim != r.mesh.dim && !disable
+  -- spec: only for the pairs the property talks about
+  let spec : String :=
+    if s.mesh.dim == r.mesh.dim then (if s == r then "T" else "-")
+    else
+      let d := max s.mesh.dim r.mesh.dim
+      let (lo, hi) := if s.mesh.dim < r.mesh.dim then (s, r) else (r, s)
+      match Spec.paddedCopy d lo with
+      | some p => if p == hi then (if Spec.dimMatchSpec true disable true then "T" else "F") else "-"
+      | none => "-"
+  pure s!"hyp={showBool (hypC17 s r)} model={showOptBool m} dom0={showBool dom0} rung={showBool rung} spec={spec}"
+
+def opZero : P String := do
+  let z ← pInt
+  let rel ← pNat
+  let abs ← pNat
+  pure s!"hyp=1 model={showBool (fuzzyEq1 f64 0 z rel true abs true)} exact={showBool (Spec.zeroVsExact z rel abs)}"
 
 def handleC17 (op : String) : Option (P String) :=
   match op with
+  | "c17.cmp" => some opCmp
+  | "c17.zero" => some opZero
   | _ => none
 
 end Fc.Drv
